@@ -84,12 +84,22 @@ union("Choice", [
 services = []
 SAFE_MARKER = {"type": "external", "external": {"externalReference": {"name": "Safe", "package": "com.palantir.logsafe"},
                                                  "fallback": ANY}}
+def ext_marker(package, name):
+    return {"type": "external", "external": {"externalReference": {"name": name, "package": package}, "fallback": ANY}}
+MARKERS = {True: [SAFE_MARKER], False: [],
+           "unsafe": [ext_marker("com.palantir.logsafe", "Unsafe")],
+           "dnl": [ext_marker("com.palantir.logsafe", "DoNotLog")],
+           "foreign": [ext_marker("com.example.audit", "Safe")],
+           "two": [ext_marker("com.example.audit", "Safe"), ext_marker("com.palantir.logsafe", "Unsafe")]}
+def is_safe_marker(m):
+    r = m.get("external", {}).get("externalReference", {})
+    return r.get("package") == "com.palantir.logsafe" and r.get("name") == "Safe"
 def arg(name, t, kind, pid=None, safety=None, marker=False, tag=False):
     if kind == "path": pt = {"type": "path", "path": {}}
     elif kind == "query": pt = {"type": "query", "query": {"paramId": pid or name}}
     elif kind == "header": pt = {"type": "header", "header": {"paramId": pid or name}}
     elif kind == "body": pt = {"type": "body", "body": {}}
-    a = {"argName": name, "type": t, "paramType": pt, "markers": [SAFE_MARKER] if marker else [], "tags": ["safe"] if tag else []}
+    a = {"argName": name, "type": t, "paramType": pt, "markers": MARKERS[marker], "tags": ["safe"] if tag else []}
     if safety: a["safety"] = safety
     return a
 def ep(name, method, path, args=(), returns=None, auth=None, tags=()):
@@ -157,6 +167,15 @@ service("SafetyService", [
         arg("dnlHeader", opt(STRING), "header", pid="Dnl-Header", safety="DO_NOT_LOG"),
         arg("body", STRING, "body"),
     ], auth="header"),
+    # markers other than com.palantir.logsafe.Safe do not make an argument safe
+    ep("markers", "POST", "/s/markers/{realSafe}/{markedUnsafe}/{markedDnl}", [
+        arg("realSafe", STRING, "path", marker=True), arg("markedUnsafe", STRING, "path", marker="unsafe"),
+        arg("markedDnl", STRING, "path", marker="dnl"),
+        arg("foreignSafe", STRING, "query", pid="fs", marker="foreign"),
+        arg("twoMarkers", opt(STRING), "query", pid="tm", marker="two"),
+        arg("markedUnsafeHeader", opt(STRING), "header", pid="Marked-Unsafe", marker="unsafe"),
+        arg("body", STRING, "body", marker="foreign"),
+    ]),
     ep("safeBody", "POST", "/s/body/safe", [arg("body", STRING, "body", safety="SAFE"),
                                             arg("q", opt(STRING), "query")]),
     ep("mapKeys", "POST", "/s/map/keys", [arg("grants", mp(STRING, ref("Color")), "body")]),
@@ -482,7 +501,7 @@ for idx, s, e in flat:
         items.append('ArgVal::new("auth_", bx(<conjure_object::BearerToken as Gen>::gen(t, &g.at(Kind::Auth, false))))')
     for a in e["args"]:
         kind = {"path": "Path", "query": "Query", "header": "Header", "body": "Body"}[a["paramType"]["type"]]
-        safe = "true" if (a.get("safety") == "SAFE" or a["markers"] or a["tags"]) else "false"
+        safe = "true" if (a.get("safety") == "SAFE" or any(is_safe_marker(m) for m in a["markers"]) or a["tags"]) else "false"
         if is_binary(a["type"]):
             items.append('ArgVal::new("%s", bx(<BinVal as Gen>::gen(t, &g.at(Kind::%s, %s))))' % (a["argName"], kind, safe))
         else:
